@@ -875,7 +875,16 @@ pub fn exec(op: &str, a: &[&str]) -> Option<String> {
             // `Epoch::from_str_with_format` is `format.parse`; both entry points are exercised
             let r1 = fmt.parse(&s);
             let r2 = Epoch::from_str_with_format(&s, fmt);
-            assert!(r1.is_ok() == r2.is_ok());
+            // the two entry points must answer alike (value for value): a difference is reported as its own word, which no
+            // model answer equals
+            let same = match (&r1, &r2) {
+                (Ok(x), Ok(y)) => x.to_time_scale(y.time_scale).duration.to_parts() == y.duration.to_parts() && x.time_scale == y.time_scale,
+                (Err(_), Err(_)) => true,
+                _ => false,
+            };
+            if !same {
+                return Some("entry-points-differ".to_string());
+            }
             Some(res_e(r1))
         }
         "p_constparse" => Some(res_e(const_by_name(a[0]).parse(&hex2str(a[1])))),
